@@ -180,6 +180,19 @@ Definition client_query (fs : list field) (req : mval) : result (list (str * str
             else [Unmodelled (s "query field of unmodelled kind/cardinality")])
           (query_fields fs)).
 
+(* net/url validEncoded(s, encodePath): a path made of these bytes only is written on the wire as given;
+   any other byte makes URL.EscapedPath() re-encode the decoded path (not modelled) *)
+Definition url_path_byte_ok (c : ascii) : bool :=
+  is_alnum c || in_chars c (s "-_.~") || in_chars c (s "!$&'()*+,;=:@[]") || Ascii.eqb c "%"%char.
+
+(* the client replaces only the variables of the METHOD path; any other {variable} segment (from the
+   service base path) stays literally in the URL, braces included *)
+Definition client_template_plain (vars : list str) (segs : list seg) : bool :=
+  forallb (fun g => match g with
+                    | SLit x => forallb url_path_byte_ok x
+                    | SVar v => existsb (str_eqb v) vars
+                    end) segs.
+
 Definition client_build (fl : file) (sv : service) (md : method) (fs : list field) (ct : ctype) (req : mval)
   : result wire_req :=
   let r := info_of fl sv md fs in
@@ -187,6 +200,8 @@ Definition client_build (fl : file) (sv : service) (md : method) (fs : list fiel
   match tsegs (rt_path rt) with
   | None => Unmodelled (s "client path template not modelled")
   | Some segs =>
+      if negb (client_template_plain (rt_pathvars rt) segs)
+      then Unmodelled (s "client path needs net/url re-encoding") else
       match all_ok (map (fill_seg fs req) segs) with
       | Unmodelled w => Unmodelled w
       | Ok filled =>
@@ -227,7 +242,8 @@ Fixpoint match_segs (pat : list seg) (segs : list str) : option (list (str * str
   | [], [] => Some []
   | [SLit []], _ :: _ => Some []                  (* pattern ends in '/': subtree match *)
   | SLit x :: pr, e :: sr =>
-      if str_eqb (seg_unescape e) x then match_segs pr sr else None
+      (* pattern.go parsePattern unescapes literal pattern segments at registration *)
+      if str_eqb (seg_unescape e) (seg_unescape x) then match_segs pr sr else None
   | SVar v :: pr, e :: sr =>
       let u := seg_unescape e in
       (* a single wildcard matches neither an empty segment nor a segment that unescapes to "/"
@@ -428,7 +444,10 @@ Inductive c01_defect :=
   | C01SlashValue                    (* a path value "/" (sent as %2F) is taken for a trailing slash by the mux *)
   | C01RequiredQueryOnBodyVerb       (* a required query parameter on POST/PUT/PATCH is never sent by the client *)
   | C01SiblingRoute                  (* the filled path is claimed by a more specific sibling pattern *)
-  | C01UncleanPattern.               (* a pattern ServeMux refuses (empty/dot segment, no '/' at all): registration panics *)
+  | C01UncleanPattern                (* a pattern ServeMux refuses (empty/dot segment, no '/' at all): registration panics *)
+  | C01RequiredQueryZeroElided       (* GET/DELETE: a required query parameter holding the zero value is not sent; the server answers 400 *)
+  | C01BasePathVariable              (* the service base path holds a {variable}: the client replaces and the server binds only the method path's variables *)
+  | C01DuplicateQueryName.           (* GET/DELETE: two query fields share a parameter name (url.Values.Set keeps one value, both fields read it) *)
 
 Definition c01_defect_str (d : c01_defect) : str :=
   match d with
@@ -439,6 +458,9 @@ Definition c01_defect_str (d : c01_defect) : str :=
   | C01RequiredQueryOnBodyVerb => s "required-query-on-body-verb"
   | C01SiblingRoute => s "sibling-route-claims-path"
   | C01UncleanPattern => s "pattern-registration-panic"
+  | C01RequiredQueryZeroElided => s "required-query-zero-value-elided"
+  | C01BasePathVariable => s "base-path-variable-unbound"
+  | C01DuplicateQueryName => s "duplicate-query-name"
   end.
 
 Definition route_defect (d : c03_defect) : bool :=
@@ -475,7 +497,16 @@ Definition defects_C01 (sc : schema) (fl : file) (sv : service) (md : method) (c
                     | None => []
                     end
    | _, _ => []
-   end).
+   end) ++
+  (if negb (verb_has_body (eff_verb r)) &&
+      existsb (fun f => qrequired f && is_zero (scalar_of req f)) (query_fields fs)
+   then [C01RequiredQueryZeroElided] else []) ++
+  (if in_chars lbrace (ri_base r) then [C01BasePathVariable] else []) ++
+  (if negb (verb_has_body (eff_verb r)) &&
+      (fix dup (l : list str) : bool :=
+         match l with [] => false | x :: t => existsb (str_eqb x) t || dup t end)
+        (map qname (query_fields fs))
+   then [C01DuplicateQueryName] else []).
 
 Definition ctype_of_nat (n : nat) : ctype := match n with 0 => CtJSON | 1 => CtProto | _ => CtOctet end.
 
